@@ -76,6 +76,33 @@ def main():
         r2 = pickle.loads(pickle.dumps(res))
         if not (np.array_equal(r2.py_get_result(), res.py_get_result()) and np.array_equal(r2.py_get_timepoints(), res.py_get_timepoints())):
             return dict(reproduced=True, call='pickle of a result object', observed='differs', expected='equal data')
+    # lineage models copied while NOT initialised (never initialised / edited after the last simulation): the copy has the same rules and events
+    from bioscrape.lineage import LineageModel, LineageVolumeSplitter, py_SimulateSingleCell
+
+    def lin_model(init):
+        L = LineageModel(species=['A'], reactions=[([], ['A'], 'massaction', {'k': 2.0})], initial_condition_dict={'A': 0}, initialize_model=init)
+        L.create_volume_rule('linear', {'growth_rate': 0.5})
+        L.create_death_rule('species', {'specie': 'A', 'threshold': 1000, 'comp': '>'})
+        L.create_division_rule('deltaV', {'threshold': 1.0}, LineageVolumeSplitter(L, options={}))
+        return L
+
+    def lin_run(L, seed):
+        py_seed_random(seed)
+        r = py_SimulateSingleCell(np.arange(0, 6, 0.25), Model=L, return_dataframes=False)
+        return [len(r.py_get_timepoints()), r.py_get_divided(), np.array(r.py_get_volume()).round(9).tolist()]
+    for how in ('never-initialised', 'edited-after-a-simulation'):
+        L = lin_model(how != 'never-initialised')
+        if how != 'never-initialised':
+            lin_run(L, 3)
+            L.create_parameter('extra', 1.0)          # an edit: the model is marked as not initialised again
+        copies = [pickle.loads(pickle.dumps(L)), copy.deepcopy(L), pickle.loads(pickle.dumps(pickle.loads(pickle.dumps(L))))]
+        want = lin_run(L, 17)
+        for k, cp in enumerate(copies):
+            n += 1
+            got = lin_run(cp, 17)
+            if got != want:
+                return dict(reproduced=True, call='copy route %d of a lineage model (%s) with a volume rule, a death rule and a division rule; single-cell run with the same seed' % (k, how),
+                            what='[rows, division code, volume trace]', observed=got, expected=want)
     # lineage cell states with every field away from its default (a cell that divided / died by some rule code): pickle, double pickle, deep copy
     from bioscrape.lineage import LineageVolumeCellState
     for it in range(SPEC.get('cell_rounds', 12)):
